@@ -100,3 +100,88 @@ def gen_doc(rng, ntok):
     doc += [list(E0) for _ in range(depth)]
     cfg = [rng.choice([[], [], R(400), R(96)]), rng.choice([[], [], R(400), R(48)]), rng.choice([0, 0, 0, 1, 2])]
     return {"doc": doc, "cfg": cfg}
+
+
+# --------------------------------------------------------------------------- paint documents (C14)
+
+COLOURS = ["red", "blue", "lime", "none", "currentColor", "yellow"]
+WIDTHS = [R(0), R(1, 2), R(2), R(3)]
+OPACS = [R(0), R(1, 4), R(1, 2), R(1)]
+
+
+def decls(rng, shape, n, own=True):
+    """own: declarations written on a shape itself (vector-effect is modelled on the element only; whether it
+    inherits is left open, so rules - which may match containers - do not set it)"""
+    props = ["fill", "stroke", "stroke-width", "color", "fill-opacity", "stroke-opacity"]
+    if shape and own and rng.random() < 0.15:
+        props.append("vector-effect")
+    if rng.random() < 0.08:
+        props.append("display")
+    out = []
+    for p in rng.sample(props, min(n, len(props))):
+        if p in ("fill", "stroke"):
+            v = rng.choice(COLOURS)
+        elif p == "stroke-width":
+            v = rng.choice(WIDTHS)
+        elif p == "color":
+            v = rng.choice(["teal", "navy", "maroon"])
+        elif p in ("fill-opacity", "stroke-opacity"):
+            v = rng.choice(OPACS)
+        elif p == "vector-effect":
+            v = rng.choice(["non-scaling-stroke", "none"])
+        else:
+            v = rng.choice(["none", "inline"])
+        out.append([p, v])
+    return out
+
+
+def gen_paint_doc(rng):
+    vb = rng.choice([[], [R(0), R(0), R(100), R(50)], [R(0), R(0), R(50), R(25)]])
+    root = ["svg", "", 0, False, [NOL, NOL, A(200), A(100), vb, ["xMidYMid", ""]], [[], [], []]]
+    doc = [root]
+    depth = 1
+    ids = iter("abcdefghij")
+    nshape = 0
+    for _ in range(rng.randint(2, 7)):
+        r = rng.random()
+        if r < 0.15 and depth > 1:
+            doc.append(list(E0))
+            depth -= 1
+            continue
+        classes = rng.choice([[], [], ["k"], ["m"], ["k", "m"]])
+        ident = next(ids) if rng.random() < 0.7 else ""
+        if r < 0.45 and depth < 4:
+            paint = [decls(rng, False, rng.choice([0, 1, 2, 3])), classes, decls(rng, False, rng.choice([0, 0, 1, 2]))]
+            doc.append(["g", ident, rng.choice([0, 0, 2, 5, 7]), False, [], paint])
+            depth += 1
+        else:
+            paint = [decls(rng, True, rng.choice([0, 1, 2, 3])), classes, decls(rng, True, rng.choice([0, 0, 1, 2]))]
+            if rng.random() < 0.5:
+                doc.append(["rect", ident, rng.choice([0, 0, 2]), False, [A(1), A(2), A(30), A(40), NOL, NOL], paint])
+            else:
+                doc.append(["circle", ident, rng.choice([0, 0, 7]), False, [A(5), A(6), A(7)], paint])
+            nshape += 1
+    if nshape == 0:
+        doc.append(["rect", "z", 0, False, [A(1), A(2), A(30), A(40), NOL, NOL], [decls(rng, True, 2), ["k"], []]])
+    doc += [list(E0) for _ in range(depth)]
+    used_ids = [t[1] for t in doc if t[0] != "end" and t[1]]
+    sheet = []
+    for _ in range(rng.choice([0, 1, 2, 3, 4])):
+        kind = rng.choice(["*", "type", "type", "class", "class", "typeclass", "id"])
+        if kind == "*":
+            arg, body = "", [d for d in decls(rng, False, 1) if d[0] != "display"]
+        elif kind == "type":
+            arg, body = rng.choice(["rect", "circle", "g"]), decls(rng, True, rng.choice([1, 2]), own=False)
+        elif kind == "class":
+            arg, body = rng.choice(["k", "m"]), decls(rng, True, rng.choice([1, 2]), own=False)
+        elif kind == "typeclass":
+            arg, body = [rng.choice(["rect", "circle", "g"]), rng.choice(["k", "m"])], decls(rng, True, rng.choice([1, 2]), own=False)
+        else:
+            if not used_ids:
+                continue
+            arg = rng.choice(used_ids)
+            is_shape = any(t[1] == arg and t[0] in ("rect", "circle") for t in doc)
+            body = decls(rng, True, rng.choice([1, 2]), own=is_shape)
+        if body:
+            sheet.append([kind, arg, body])
+    return {"doc": doc, "sheet": sheet, "callerColor": rng.choice(["black", "teal"])}
